@@ -1,21 +1,21 @@
 SPECIFICATION GenSpec
 CONSTANTS
   Conns = {1}
-  HsKinds = {"valid", "garbage", "replayC", "replayS"}
+  HsKinds = {"valid"}
   TgtKinds = {"ok"}
-  MaxC = 1
-  MaxT = 1
-  MaxTok = 5
-  AllowBad = TRUE
+  MaxC = 2
+  MaxT = 2
+  MaxTok = 7
+  AllowBad = FALSE
   AllowSplit = FALSE
   AllowRst = FALSE
   AllowTClose = FALSE
   AllowCRst = FALSE
-  AllowPause = FALSE
+  AllowPause = TRUE
   Planned = TRUE
   Timeout = 2
-  MaxNow = 3
-  DrainMode = "raw"
+  MaxNow = 4
+  DrainMode = "inner"
   Strict = TRUE
   WithServe = FALSE
   Hist = TRUE
@@ -23,5 +23,5 @@ CONSTANTS
   SlackLate = 0
   SlackSched = 0
 INVARIANTS DumpInv
-CONSTRAINT NoFin
+ACTION_CONSTRAINT PausedReceiver
 CHECK_DEADLOCK FALSE
